@@ -342,3 +342,6 @@ def run(ck):
     fw = [it for it in its if "core::slice::iter::Iter<" in it["iter_ty"] and it["forward"]]
     ck.require(len(fw) == 1 and len(its) == 1, "C08-R6", "applied names appended in series order",
                "the log writer iterates %s" % [(it["kind"], it["iter_ty"]) for it in its], sap.where())
+    # ---- R7: a backup is what the rollback restores - mode and existence included (shared with C04-R1) ----------------------------------
+    from .c18 import ck_alias
+    c04.r1_fields_restored(ck_alias(ck, "C08-R7"))
